@@ -1,4 +1,5 @@
 import Pk.Parse
+import Pk.Diverge
 import Pk.Inst
 import Pk.Lift
 import Pk.Predict
@@ -256,6 +257,22 @@ def cmdNames : P String := do
   withFit nx nu s fun _ => do
     pure ("ok\t" ++ "\t".intercalate (featureNamesOut s (nx, nu) fitEp given sym fmt callEp))
 
+/-- `divpat <nEp> {<n> <m> <k|n>}*` : NaN bookkeeping of `predict_trajectory` when the prediction of an episode diverges at
+loop iteration `k` (`n`: it does not): crash index, NaN pattern of the `n` state rows and of the `n − m + 1` lifted rows -/
+def cmdDivPat : P String := do
+  let nEp ← pNat
+  let eps ← pMany nEp (do
+    let n ← pNat; let m ← pNat
+    let t ← tok
+    let fs : Option Nat := if t == "n" then none else t.toNat?
+    pure (n, m, fs))
+  let bits (l : List Bool) : String := String.mk (l.map fun b => if b then '1' else '0')
+  let one := fun (e : Nat × Nat × Option Nat) =>
+    let c := Pk.Diverge.crashOf e.2.2
+    let cs := match c with | none => "-1" | some v => toString v
+    s!"{cs} {bits (Pk.Diverge.nanPattern e.1 c)} {bits (Pk.Diverge.nanPattern (e.1 - e.2.1 + 1) c)}"
+  pure ("ok " ++ " ".intercalate (eps.map one))
+
 /-- `accept <n|k names…> <a|n|k names…>` : would a call with the second input (`a`: a plain array, `n`: a frame without
 valid names, `k names…`: a frame with these names) be accepted by an estimator fitted with the first names? -/
 def cmdAccept : P String := do
@@ -426,6 +443,7 @@ def dispatch : P String := do
   | "tsvd" => cmdTsvd
   | "names" => cmdNames
   | "accept" => cmdAccept
+  | "divpat" => cmdDivPat
   | "config" => cmdConfig
   | "cprog" => cmdCProg
   | "weights" => cmdWeights
